@@ -39,8 +39,17 @@ try:
     rc, out = sh("git apply seeded/patch.diff", cwd=wt)
     res["patch_applies"] = (rc == 0)
     if rc != 0:
-        res["apply_output"] = out[-500:]
-        raise SystemExit
+        # the context moved (later fix commits nearby): apply with fuzz and refresh the stored patch
+        rc2, out2 = sh("patch -p1 -F3 --no-backup-if-mismatch < seeded/patch.diff", cwd=wt)
+        res["patch_applied_with_fuzz"] = (rc2 == 0)
+        if rc2 != 0:
+            res["apply_output"] = (out + out2)[-800:]
+            print(json.dumps(res, indent=1))
+            raise SystemExit
+        rc3, newdiff = sh("git diff -- src", cwd=wt)
+        if rc3 == 0 and newdiff.strip():
+            open(os.path.join(seed, "patch.diff"), "w").write(newdiff)
+            res["patch_refreshed"] = True
     env = dict(os.environ, VERIF_REPO=wt)
     rc, out = sh("/verif/tools/repo_tests.sh", env=env, timeout=1200)
     res["suite_with_patch"] = out.strip().splitlines()[-2:] if out.strip() else []
